@@ -141,10 +141,14 @@ class IterableQueue(Iterator[Elem]):
             self._spare_lids = queue.Queue(maxsize=num_suppliers)
             self._applied_lids = queue.Queue(maxsize=num_suppliers)
             self._used_lids = queue.Queue(maxsize=num_suppliers)
+            self._lids_lock = threading.Lock()
         else:
             self._spare_lids = multiprocessing.Queue(maxsize=num_suppliers)
             self._applied_lids = multiprocessing.Queue(maxsize=num_suppliers)
             self._used_lids = multiprocessing.Queue(maxsize=num_suppliers)
+            self._lids_lock = multiprocessing.Lock()
+        # `_lids_lock` makes "move one lid to `_used_lids` and test whether that completed
+        # the set" atomic among consumers; see `__next__`.
         for _ in range(num_suppliers):
             self._spare_lids.put(None)
         # User should not touch these internal helper queues.
@@ -161,6 +165,7 @@ class IterableQueue(Iterator[Elem]):
             self._applied_lids,
             self._used_lids,
             self._can_timeout,
+            self._lids_lock,
         )
 
     def __setstate__(self, zz):
@@ -172,6 +177,7 @@ class IterableQueue(Iterator[Elem]):
             self._applied_lids,
             self._used_lids,
             self._can_timeout,
+            self._lids_lock,
         ) = zz
 
     @property
@@ -250,28 +256,35 @@ class IterableQueue(Iterator[Elem]):
 
         z = self._q.get()
         if z is None:
-            if self._used_lids.full():
-                # Other consumers have removed all the lids and confirmed
-                # there's no more data to come from the queue.
-                # There's no more `None` in `self._applied_lids`.
-                self.put(None)
-                # Let there always be an end marker so that other consumers
-                # can still iterate over this queue and see it's finished.
-                # `self._used_lids` remains full, hence the next call
-                # to `__next__` will get here again.
-                # This does not increase the number of `None`s in the queue
-                # as it simply replaces the one that is just taken off the queue.
-                raise StopIteration
-            z = self._applied_lids.get()
-            self._used_lids.put(z)
-            if self._used_lids.full():
-                # This is the first consumer who sees the queue is exhausted.
-                # Put an extra `None` in the queue for other consumers to see.
-                # This is needed because we don't assume nor limit the number
-                # of consumers to the queue.
-                # This is the only extra `None`: there is only one consumer
-                # who is the first to see the bottom of the queue, and subsequent
-                # consumers will get/put this `None` without increasing its count.
+            # The test-and-move on the lids must be atomic among consumers.
+            # Otherwise two consumers, each having taken one of the last two end
+            # markers off the queue, could both move their lid and then both see
+            # `_used_lids` full, and both add the "extra" `None`; the surplus
+            # marker would survive `renew` and end the next round prematurely.
+            with self._lids_lock:
+                if self._used_lids.full():
+                    # Other consumers have removed all the lids and confirmed
+                    # there's no more data to come from the queue.
+                    # There's no more `None` in `self._applied_lids`.
+                    exhausted = True
+                    # Put back the end marker (below) so that other consumers
+                    # can still iterate over this queue and see it's finished.
+                    # `self._used_lids` remains full, hence the next call
+                    # to `__next__` will get here again.
+                    # This does not increase the number of `None`s in the queue
+                    # as it simply replaces the one that is just taken off the queue.
+                else:
+                    z = self._applied_lids.get()
+                    self._used_lids.put(z)
+                    exhausted = self._used_lids.full()
+                    # If true, this is the first consumer who sees the queue is exhausted.
+                    # Put an extra `None` in the queue (below) for other consumers to see.
+                    # This is needed because we don't assume nor limit the number
+                    # of consumers to the queue.
+                    # This is the only extra `None`: there is only one consumer
+                    # who is the first to see the bottom of the queue, and subsequent
+                    # consumers will get/put this `None` without increasing its count.
+            if exhausted:
                 self.put(None)
                 raise StopIteration
             # The queue is not exhausted because all suppliers's end markers ("lids")
